@@ -101,10 +101,10 @@ TRUSTED = [
     "Coq 8.16.1 kernel + vm_compute (no native_compute)",
     "Bignums/Uint63 primitives for the executed instance BQCf (theorems are generic and closed)",
     "hand-written model Solve.v/Network.v tied to /repo (a) for the index bookkeeping around the star product — "
-    "Structure.sel_output / sel_input / split_in_out / get_S_back — for ALL matrices and pin lists by the translation obligation: "
+    "Structure.sel_output / sel_input / split_in_out / get_S_back and the choice of the joined pins (get_out_to / get_in_from / the pairing loop of Structure.join) — for ALL matrices, pin lists and link tables by the translation obligation: "
     "harness/translate_join.py (trusted, fail-closed, pattern-based over the ast) emits the blocks / reassembly / selection the "
     "current source computes and coq/templates/JoinSrcProof.v proves them equal to Solve.part / Solve.assemble / positions in "
-    "ins ++ outs / Solve.keep; (b) by this correspondence run (sampled), which covers the rest of Structure.join and the loop",
+    "ins ++ outs / Solve.keep / the entries of the link table that Solve.links selects; (b) by this correspondence run (sampled), which covers the rest of Structure.join and the loop",
     "translator's reading of numpy: A[:, i, j] = B[:, r, c] copies entry (r, c) of every slice; np.concatenate on the last / "
     "second-to-last axis puts blocks side by side / on top of each other",
     "harness: netlist generator, construction through the public API, float->dyadic transport, emitter, parser",
@@ -118,7 +118,8 @@ if __name__ == "__main__":
          source_obligations=[source_obligation(
              "JoinSrc_C01", translate_join.translate, "JoinSrcProof.v",
              ["split_src_is_part", "back_src_is_assemble", "back_index_is_position", "sel_out_src_is_keep",
-              "sel_in_src_is_keep", "join_pins_src_is_keep"])],
+              "sel_in_src_is_keep", "join_pins_src_is_keep", "get_out_to_src_is_filter", "get_in_from_src_is_filter",
+              "join_links_src_selects", "join_links_src_are_links"])],
          level_text="props/C01.v: for every netlist and every schedule, if the model of the elimination loop returns a "
                     "result then every solution of the network equations obeys the reported matrix (solve_sound), and "
                     "solutions exist for every excitation (solve_complete); the model refuses a result when a connection "
